@@ -138,5 +138,17 @@ def run(ctx):
     items = design_items(ctx, ('sound',))
     res = pmap(ctx, check_design, items)
     ctx.extra['design_outcomes'] = {k: res.count(k) for k in set(res)}
-    linked = [d for (d, _), r in zip(items, res) if r == 'ok'][: (60 if ctx.tier == 'thorough' else 16)]
+    oks = [d for (d, _), r in zip(items, res) if r == 'ok']
+    linked = oks[: (60 if ctx.tier == 'thorough' else 12)]
+    # plus one design per residue of the trial-variable count modulo 10 (the sampling-set lines hold 10 variables each)
+    seen = set()
+    for d in oks:
+        try:
+            sup = compile_design(d, need_ref=False).support % 10
+        except Exception:
+            continue
+        if sup not in seen:
+            seen.add(sup)
+            if d not in linked:
+                linked.append(d)
     pmap(ctx, _link, linked)
